@@ -308,3 +308,29 @@ def mutations_while_iterating(fnode):
                 if isinstance(x, ast.Delete) and any(isinstance(t, ast.Subscript) and is_name(t.value, L) for t in x.targets):
                     out.append((loop, x))
     return out
+
+
+# ---------------------------------------------------------------------------
+def folded_flags(ctx, f, call, pos):
+    """re flags of a call into `re` (keyword `flags` or positional slot `pos`), folded; 0 when absent"""
+    from .. import consts
+    fl = next((k.value for k in call.keywords if k.arg == 'flags'), call.args[pos] if len(call.args) > pos else None)
+    if fl is None:
+        return 0
+    try:
+        v = consts.Folder(ctx.prog).fold(f.module, fl, None, f)
+    except consts.NotConstant as ex:
+        raise AnalysisError('regex flags not foldable: %s' % ex)
+    return int(v)
+
+
+def fold_text(ctx, f, expr, env=None):
+    """constant string an expression of function f denotes (module constants, single-assignment locals, +, join, format, re.escape)"""
+    from .. import consts
+    try:
+        v = consts.Folder(ctx.prog).fold(f.module, expr, env, f)
+    except consts.NotConstant as ex:
+        raise AnalysisError('pattern not foldable in %s: %s (%s)' % (f.qualname, ast.unparse(expr)[:60], ex))
+    if not isinstance(v, str):
+        raise AnalysisError('pattern in %s does not fold to text: %s' % (f.qualname, ast.unparse(expr)[:60]))
+    return v
